@@ -166,3 +166,17 @@ Proof.
   - destruct (y_amount k (r_tree r)); [eauto | apply IH; exact H].
   - destruct (count_pos_amount k (r_tree r)) as (a & Ha); [lia|]. rewrite Ha. eauto.
 Qed.
+
+(** ** Counting in a grafted list of roots *)
+Definition groot (k : svs) (new : sym) (r : sroot) : sroot := mkRoot (y_graft k new (r_tree r)) (r_unwrap r).
+
+Lemma count_in_groots k k' new rs : svs_eqb k k' = false ->
+  count_in k' (map (groot k new) rs) = count_in k' rs + count_in k rs * y_count k' new.
+Proof.
+  intro Hkk. induction rs as [|r rs IH]; [reflexivity|]. simpl map.
+  rewrite !count_in_cons, IH. unfold groot at 1. simpl r_tree. rewrite (y_count_graft k k' new Hkk). lia.
+Qed.
+
+Lemma count_in_insert k (la lb : list sroot) r :
+  count_in k (la ++ r :: lb) = count_in k (la ++ lb) + y_count k (r_tree r).
+Proof. rewrite !count_in_app, count_in_cons. lia. Qed.
